@@ -8,8 +8,10 @@ p-adically, it is not reduced modulo `p`), looks the code up in `_pol2log`, and 
 The model returns the index it looks up (`none` = the `return r = zero` shortcut); `initG` is the element.
 
 Source value `a`: an integer (floating sources: a finite integer-valued `double`; `float` forwards to the `double` overload).
-`fmod`, `double(UTT)` below `2^53`… are exact on these values.  `(UTT)tr` of a `double` `tr ≥ 2^W` is undefined behaviour; it is
-modelled as the wrap (what x86-64 produces for `2^64`), see `Props/C04GFq.lean` for the one value where the code takes that path.
+`fmod`, `double(UTT)` below `2^53`… are exact on these values.  The model is of the tree WITH fixes/C04_10.patch: the unrepaired
+test `tr > Signed_Trait<UTT>::max()` compares with the double `2^64` when `UTT = uint64_t` (`2^64 - 1` rounds up), so a source of
+magnitude exactly `2^64` took the cast `(uint64_t)tr` (undefined behaviour; 0 on x86-64) and `GFqDom<int64_t>(3).init(e, 2^64)` was
+`zero` instead of the element 1.  The repaired test is `tr >= double(max)`; `(UTT)tr` is then only reached below `2^W`.
 -/
 import GivaroModel.Prim.Word
 import GivaroModel.Spec.GFqSpec
@@ -20,14 +22,14 @@ open Givaro.Model.MontInit (Src)
 
 def wrapU (W : Nat) (x : Int) : Int := if W = 32 then wrapU32 x else wrapU64 x
 def wrapS (W : Nat) (x : Int) : Int := if W = 32 then wrapS32 x else wrapS64 x
-/-- `Signed_Trait<UTT>::max()` converted to `double` for the comparison `tr > max` (`2^64 - 1` rounds to `2^64`) -/
+/-- `static_cast<double>(Signed_Trait<UTT>::max())` (`2^64 - 1` rounds to `2^64`) -/
 def smaxD (W : Nat) : Int := if W = 32 then 4294967295 else 18446744073709551616
 /-- `maxCardinality()` -/
 def maxQ (W : Nat) : Int := if W = 32 then 65536 else 4294967296
 
 /-- the reduction shared by the two branches of `init(Rep&, double)` -/
 def redF64 (W : Nat) (q tr : Int) : Int :=
-  if tr > smaxD W then tr % q                            -- tr = fmod(tr, (double)_q)
+  if tr ≥ smaxD W then tr % q                            -- if (tr >= double(max)) tr = fmod(tr, (double)_q)
   else if tr ≥ wrapS W q then wrapU W tr % q             -- if (tr >= (TT)_q) tr = double((UTT)tr % _q)
   else tr
 
